@@ -297,9 +297,101 @@ theorem create_dir_all_root_needed :
     errOf (createDirAll ⟨.file [], []⟩ [SLASH]) = none ∧ view (createDirAll ⟨.file [], []⟩ [SLASH]).1.root [] = some (.file []) := by
   decide
 
+/-! ## every kind of node (sockets, character and block devices next to files, directories, symlinks, fifos) -/
+
+/-- `Metadata::is_dir / is_file / is_symlink` (masked comparison of `st_mode`) recognise exactly their own file type,
+for EVERY kind of node -/
+theorem metadata_predicates_exact (k : Kind) :
+    (metaIsDir k.stMode = true ↔ k = .dir) ∧ (metaIsFile k.stMode = true ↔ ∃ b, k = .file b) ∧
+    (metaIsSymlink k.stMode = true ↔ ∃ t, k = .symlink t) :=
+  ⟨metaIsDir_stMode k, metaIsFile_stMode k, metaIsSymlink_stMode k⟩
+
+/-- why the comparison must be masked-and-equal: the file-type field is an enumeration; an any-bit test against
+S_IFDIR (`mode.contains(S_IFDIR)`) also fires for sockets (0o140000) and block devices (0o060000) -/
+theorem is_dir_any_bit_test_wrong :
+    (Kind.special .sock).stMode &&& S_IFDIR ≠ 0 ∧ (Kind.special .blk).stMode &&& S_IFDIR ≠ 0 ∧
+    metaIsDir (Kind.special .sock).stMode = false ∧ metaIsDir (Kind.special .blk).stMode = false := by decide
+
+/-- **metadata_post**: what `fs::metadata(p)` reports through `is_dir`/`is_file`/`is_symlink`/`len` is exactly the
+kind of the node the path resolves to (symlinks are followed, so `is_symlink` is false), for every kind of node -/
+theorem metadata_post (st : FS) (p : Bytes) (d f l : Bool) (len : Option Nat) (hp : p ≠ [])
+    (h : fsMetadata st p = .ok (d, f, l, len)) :
+    ∃ loc tr n, parsePath st p = .ok (loc, tr) ∧ getAt st.root loc = some n ∧
+      (d = true ↔ ∃ es, n = .dir es) ∧ (f = true ↔ ∃ b, n = .file b) ∧ l = false ∧
+      (∀ b, n = .file b → len = some b.length) := by
+  unfold fsMetadata statE at h
+  simp only [hp, if_false] at h
+  cases hs : stat st p with
+  | error e => rw [hs] at h; simp at h
+  | ok k =>
+    rw [hs] at h
+    simp only [Except.ok.injEq, Prod.mk.injEq] at h
+    obtain ⟨hd, hf, hl, hlen⟩ := h
+    obtain ⟨loc, tr, n, hpp, hg, hk, hns⟩ := stat_ok st p k hs
+    refine ⟨loc, tr, n, hpp, hg, ?_, ?_, ?_, ?_⟩
+    · rw [← hd, metaIsDir_stMode, ← hk]; cases n <;> simp [Node.kind]
+    · rw [← hf, metaIsFile_stMode, ← hk]; cases n <;> simp [Node.kind]
+    · rw [← hl]
+      cases hsl : metaIsSymlink k.stMode with
+      | false => rfl
+      | true =>
+        obtain ⟨t, ht⟩ := (metaIsSymlink_stMode k).mp hsl
+        rw [← hk] at ht
+        cases n <;> simp [Node.kind] at ht
+        exact absurd rfl (hns _)
+    · intro b hb
+      subst hb
+      simp [Node.kind] at hk
+      subst hk
+      exact hlen.symm
+
+/-- `fs::exists(p)` answers true only when the path resolves to a node -/
+theorem exists_post (st : FS) (p : Bytes) (hp : p ≠ []) (h : fsExists st p = .ok true) :
+    ∃ loc tr n, parsePath st p = .ok (loc, tr) ∧ getAt st.root loc = some n := by
+  unfold fsExists statE at h
+  simp only [hp, if_false] at h
+  cases hs : stat st p with
+  | ok k =>
+    obtain ⟨loc, tr, n, hpp, hg, _, _⟩ := stat_ok st p k hs
+    exact ⟨loc, tr, n, hpp, hg⟩
+  | error e =>
+    rw [hs] at h
+    simp only at h
+    split at h <;> simp at h
+
+/-- FINDING (known_findings.d/C14.jsonl): `rusl::unistd::stat` always passes AT_EMPTY_PATH, so for the EMPTY path
+`fs::metadata("")` is Ok and describes the working directory and `fs::exists("")` is `Ok(true)` — std::fs answers
+ENOENT / false, and the doc comment of `exists` promises a false negative.  Hence `p ≠ []` in the two theorems above. -/
+theorem metadata_empty_path_is_cwd :
+    (match fsMetadata demo [] with | .ok r => some r | .error _ => none) = some (true, false, false, none) ∧
+    (match fsExists demo [] with | .ok b => some b | .error _ => none) = some true ∧
+    (match stat demo [] with | .ok _ => none | .error e => some e) = some (.os ENOENT) := by decide
+
+def demoKinds : FS :=
+  ⟨.dir [([115, 107], .special .sock), ([99], .special .chr), ([98], .special .blk), ([112], .fifo), ([102], .file [1]),
+         ([100], .dir [([115], .special .sock), ([98], .special .blk), ([120], .dir [([99], .special .chr)])])], []⟩
+
+/-- a socket, a block device, a character device, a fifo already at the path (with or without a trailing separator,
+or as an intermediate component): `create_dir_all` reports it — `create_dir_all_post` (Ok ⇒ every prefix is a
+DIRECTORY node) holds for trees with every kind of node, and these are the inputs on which an `is_dir` that is not a
+masked comparison returns Ok -/
+theorem create_dir_all_special_in_the_way :
+    errOf (createDirAll demoKinds [115, 107]) = some (.os EEXIST) ∧ errOf (createDirAll demoKinds [98]) = some (.os EEXIST) ∧
+    errOf (createDirAll demoKinds [99]) = some (.os EEXIST) ∧ errOf (createDirAll demoKinds [112]) = some (.os EEXIST) ∧
+    errOf (createDirAll demoKinds [115, 107, 47]) = some (.os ENOTDIR) ∧
+    errOf (createDirAll demoKinds [98, 47, 120]) = some (.os ENOTDIR) ∧
+    errOf (createDirAll demoKinds [100, 47, 115]) = some (.os EEXIST) := by decide
+
+/-- `remove_dir_all` over a tree holding sockets and device nodes: they are unlinked (never opened or descended into) -/
+theorem remove_dir_all_with_specials :
+    errOf (removeDirAll demoKinds [100]) = none ∧ viewAfter (removeDirAll demoKinds [100]) [[100]] = some none ∧
+    viewAfter (removeDirAll demoKinds [100]) [[115, 107]] = some (some (.special .sock)) := by decide +kernel
+
 /-! ## non-vacuity -/
 
 example : errOf (createDirAll demo [101, 47, 47, 110, 47, 109]) = none ∧ ([101, 47, 47, 110, 47, 109] : Bytes).getLast? ≠ some SLASH := by decide
+example : okList (fsMetadata demoKinds [115, 107] |>.map fun _ => []) = some [] ∧ errOf (createDirAll demoKinds [100, 47, 110, 47]) = none := by decide
+example : (match fsExists demoKinds [98] with | .ok b => some b | .error _ => none) = some true := by decide
 -- create_dir_all_post: `e//n/m//` (existing prefix, repeated and trailing separators), `/x/` absolute, and `//`
 example : (∃ es, demo.root = .dir es) ∧ errOf (createDirAll demo [101, 47, 47, 110, 47, 109, 47, 47]) = none ∧
     viewAfter (createDirAll demo [101, 47, 47, 110, 47, 109, 47, 47]) [[101], [110], [109]] = some (some .dir) :=
